@@ -171,3 +171,20 @@ package report
 //@   ensures same_length: result2 == nil ==> result0 == callres("reader.Read", 0)
 //@   loop 1 opt nobreak
 //@   loop 1 opt noautoframe
+//@
+//@ # ---- the per-tick callbacks (properties C06, C07): every bound stream gets one report per tick, written once, and the
+//@ # iteration over the streams always continues
+//@ func (*ReceiverInterceptor).loop$1
+//@   # the streams in the map satisfy their invariant and the assumptions of C06 (at most 8192 sequence numbers per interval)
+//@   requires stream_ok: typeis(value, "*receiverStream") ==> as(value, "*receiverStream") != nil && rinv(as(value, "*receiverStream"))
+//@        && (as(value, "*receiverStream").started ==> as(value, "*receiverStream").ext - as(value, "*receiverStream").extReport <= 8192)
+//@   modifies *
+//@   ensures keeps_iterating: result
+//@   ensures one_report: typeis(value, "*receiverStream") ==> calls("rtcpWriter.Write") == 1 && calls("generateReport") == 1 && callarg("generateReport", 1) == now
+//@   ensures not_a_stream: !typeis(value, "*receiverStream") ==> calls("rtcpWriter.Write") == 0
+//@
+//@ func (*SenderInterceptor).loop$1
+//@   modifies *
+//@   ensures keeps_iterating: result
+//@   ensures one_report: typeis(value, "*senderStream") ==> calls("rtcpWriter.Write") == 1 && calls("generateReport") == 1 && callarg("generateReport", 1) == now
+//@   ensures not_a_stream: !typeis(value, "*senderStream") ==> calls("rtcpWriter.Write") == 0
